@@ -301,6 +301,13 @@ impl<'a> Parser<'a> {
                                 record_parts.push(part);
                                 State::Record(record_parts)
                             }
+                            // a free standing @ denotes the current origin, the name
+                            // parsers of the record types resolve it
+                            Token::At => {
+                                let mut record_parts = record_parts;
+                                record_parts.push(String::from("@"));
+                                State::Record(record_parts)
+                            }
                             // TODO: we should not tokenize the list...
                             Token::List(list) => {
                                 let mut record_parts = record_parts;
